@@ -83,8 +83,10 @@ func (o *signalHandler) addSignalUser(userID uint64, signalID, messageID uint32,
 	}
 	q := make(chan<- *net.Message)
 	cl := func(err error) {
-		// unregister user on disconnection
-		o.removeSignalUser(userID, from)
+		// unregister user on disconnection. The handler is being
+		// closed: it must not be removed a second time (its slot
+		// may already belong to another handler).
+		o.forgetSignalUser(userID, from)
 	}
 	newUser.contextID = e.MakeHandler(f, q, cl)
 
@@ -95,23 +97,32 @@ func (o *signalHandler) addSignalUser(userID uint64, signalID, messageID uint32,
 
 }
 
-// removeSignalUser unregister the given contex to events.
-func (o *signalHandler) removeSignalUser(userID uint64, from Channel) error {
+// forgetSignalUser removes the user from the table of users. It does
+// not touch the handler watching the user's connection.
+func (o *signalHandler) forgetSignalUser(userID uint64, from Channel) (signalUser, error) {
 	o.signalsMutex.Lock()
+	defer o.signalsMutex.Unlock()
 
 	for i, user := range o.signals {
 		if user.userID == userID {
 			if from.EndPoint() == user.context.EndPoint() {
 				o.signals[i] = o.signals[len(o.signals)-1]
 				o.signals = o.signals[:len(o.signals)-1]
-				o.signalsMutex.Unlock()
-				user.context.EndPoint().RemoveHandler(user.contextID)
-				return nil
+				return user, nil
 			}
 		}
 	}
-	o.signalsMutex.Unlock()
-	return fmt.Errorf("unknown user id %d", userID)
+	return signalUser{}, fmt.Errorf("unknown user id %d", userID)
+}
+
+// removeSignalUser unregister the given contex to events.
+func (o *signalHandler) removeSignalUser(userID uint64, from Channel) error {
+	user, err := o.forgetSignalUser(userID, from)
+	if err != nil {
+		return err
+	}
+	user.context.EndPoint().RemoveHandler(user.contextID)
+	return nil
 }
 
 func (o *signalHandler) RegisterEvent(msg *net.Message, from Channel) error {
